@@ -99,6 +99,12 @@ package tmi
 //@   ensures round-plus-one: s.Voting.Round == old(s.Voting.Round) + 1 && s.NextRound.Round == s.Voting.Round + 1
 //@   ensures proposed-headers-carried: s.Voting.ProposedHeaders == old(s.NextRound.ProposedHeaders) && len(s.NextRound.ProposedHeaders) == 0 &&
 //@       arr(s.NextRound.ProposedHeaders) == old(arr(s.Voting.ProposedHeaders))
+//@   ensures vote-state-carried: s.Voting.PrecommitProofs == old(s.NextRound.PrecommitProofs) && s.Voting.PrevoteProofs == old(s.NextRound.PrevoteProofs) &&
+//@       s.Voting.ValidatorSet == old(s.NextRound.ValidatorSet) && s.Voting.VoteSummary == old(s.NextRound.VoteSummary)
+//@   ensures next-round-reset: s.NextRound.PrecommitProofs == old(s.Voting.PrecommitProofs) && s.NextRound.PrevoteProofs == old(s.Voting.PrevoteProofs) &&
+//@       (forall h string :: {rawdom(s.NextRound.PrecommitProofs)[h]} !(h in s.NextRound.PrecommitProofs)) && (forall h string :: {rawdom(s.NextRound.PrevoteProofs)[h]} !(h in s.NextRound.PrevoteProofs)) &&
+//@       s.NextRound.ValidatorSet == old(s.Voting.ValidatorSet) && s.NextRound.VoteSummary.AvailablePower == old(s.Voting.VoteSummary.AvailablePower) &&
+//@       s.NextRound.VoteSummary.PrecommitBlockPower == old(s.Voting.VoteSummary.PrecommitBlockPower) && s.NextRound.VoteSummary.PrevoteBlockPower == old(s.Voting.VoteSummary.PrevoteBlockPower)
 //@   ensures committing-kept: s.Committing.Height == old(s.Committing.Height) && s.Committing.Round == old(s.Committing.Round)
 //@   ensures valset-kept: s.Voting.ValidatorSet == old(s.NextRound.ValidatorSet) && s.NextRound.ValidatorSet == old(s.Voting.ValidatorSet)
 //@   ensures version-bump: s.Voting.Version == old(s.NextRound.Version) + 1 && s.NextRound.Version == 1
@@ -114,6 +120,13 @@ package tmi
 //@   ensures round-plus-one: s.Voting.Round == old(s.Voting.Round) + 1 && s.NextRound.Round == s.Voting.Round + 1
 //@   ensures proposed-headers-carried: s.Voting.ProposedHeaders == old(s.NextRound.ProposedHeaders) && len(s.NextRound.ProposedHeaders) == 0 &&
 //@       arr(s.NextRound.ProposedHeaders) == old(arr(s.Voting.ProposedHeaders))
+//@   ensures vote-state-carried: s.Voting.PrecommitProofs == old(s.NextRound.PrecommitProofs) && s.Voting.PrevoteProofs == old(s.NextRound.PrevoteProofs) &&
+//@       s.Voting.ValidatorSet == old(s.NextRound.ValidatorSet) && s.Voting.VoteSummary == old(s.NextRound.VoteSummary)
+//@   ensures next-round-reset: s.NextRound.PrecommitProofs == old(s.Voting.PrecommitProofs) && s.NextRound.PrevoteProofs == old(s.Voting.PrevoteProofs) &&
+//@       (forall h string :: {rawdom(s.NextRound.PrecommitProofs)[h]} !(h in s.NextRound.PrecommitProofs)) && (forall h string :: {rawdom(s.NextRound.PrevoteProofs)[h]} !(h in s.NextRound.PrevoteProofs)) &&
+//@       s.NextRound.ValidatorSet == old(s.Voting.ValidatorSet) && s.NextRound.VoteSummary.AvailablePower == old(s.Voting.VoteSummary.AvailablePower) &&
+//@       s.NextRound.VoteSummary.PrecommitBlockPower == old(s.Voting.VoteSummary.PrecommitBlockPower) && s.NextRound.VoteSummary.PrevoteBlockPower == old(s.Voting.VoteSummary.PrevoteBlockPower)
+//@   ensures version-bump: s.Voting.Version == old(s.NextRound.Version) + 1 && s.NextRound.Version == 1
 //@   ensures committing-kept: s.Committing.Height == old(s.Committing.Height) && s.Committing.Round == old(s.Committing.Round)
 //@   ensures nil-voted-round-retained: s.GossipViewManager.NilVotedRound != nil &&
 //@       s.GossipViewManager.NilVotedRound.Height == old(s.Voting.Height) && s.GossipViewManager.NilVotedRound.Round == old(s.Voting.Round) &&
@@ -131,6 +144,13 @@ package tmi
 //@   ensures round-plus-one: s.Voting.Round == old(s.Voting.Round) + 1 && s.NextRound.Round == s.Voting.Round + 1
 //@   ensures proposed-headers-carried: s.Voting.ProposedHeaders == old(s.NextRound.ProposedHeaders) && len(s.NextRound.ProposedHeaders) == 0 &&
 //@       arr(s.NextRound.ProposedHeaders) == old(arr(s.Voting.ProposedHeaders))
+//@   ensures vote-state-carried: s.Voting.PrecommitProofs == old(s.NextRound.PrecommitProofs) && s.Voting.PrevoteProofs == old(s.NextRound.PrevoteProofs) &&
+//@       s.Voting.ValidatorSet == old(s.NextRound.ValidatorSet) && s.Voting.VoteSummary == old(s.NextRound.VoteSummary)
+//@   ensures next-round-reset: s.NextRound.PrecommitProofs == old(s.Voting.PrecommitProofs) && s.NextRound.PrevoteProofs == old(s.Voting.PrevoteProofs) &&
+//@       (forall h string :: {rawdom(s.NextRound.PrecommitProofs)[h]} !(h in s.NextRound.PrecommitProofs)) && (forall h string :: {rawdom(s.NextRound.PrevoteProofs)[h]} !(h in s.NextRound.PrevoteProofs)) &&
+//@       s.NextRound.ValidatorSet == old(s.Voting.ValidatorSet) && s.NextRound.VoteSummary.AvailablePower == old(s.Voting.VoteSummary.AvailablePower) &&
+//@       s.NextRound.VoteSummary.PrecommitBlockPower == old(s.Voting.VoteSummary.PrecommitBlockPower) && s.NextRound.VoteSummary.PrevoteBlockPower == old(s.Voting.VoteSummary.PrevoteBlockPower)
+//@   ensures version-bump: s.Voting.Version == old(s.NextRound.Version) + 1 && s.NextRound.Version == 1
 //@   ensures committing-kept: s.Committing.Height == old(s.Committing.Height) && s.Committing.Round == old(s.Committing.Round)
 //@   ensures jump-ahead-delivered: old(s.StateMachineViewManager.roundEntrance.H) == old(s.Voting.Height) && old(s.StateMachineViewManager.roundEntrance.R) == old(s.Voting.Round) ==>
 //@       s.StateMachineViewManager.jumpAhead != nil && s.StateMachineViewManager.jumpAhead.Height == s.Voting.Height && s.StateMachineViewManager.jumpAhead.Round == s.Voting.Round
@@ -149,7 +169,7 @@ package tmi
 //@   requires s.StateMachineViewManager.roundEntrance.H == s.Committing.Height ==>
 //@       !chanclosed(s.StateMachineViewManager.roundEntrance.HeightCommitted)
 //@   ensures committing-is-old-voting: s.Committing.Height == old(s.Voting.Height) && s.Committing.Round == old(s.Voting.Round) &&
-//@       s.Committing.ValidatorSet == old(s.Voting.ValidatorSet)
+//@       s.Committing.ValidatorSet == old(s.Voting.ValidatorSet) && s.Committing.PrecommitProofs == old(s.Voting.PrecommitProofs)
 //@   ensures voting-is-next-height: s.Voting.Height == old(s.Voting.Height) + 1 && s.Voting.Round == 0
 //@   ensures next-round-follows: s.NextRound.Height == s.Voting.Height && s.NextRound.Round == 1
 //@   ensures valset-from-next-height-details: s.Voting.ValidatorSet == nhd.ValidatorSet && s.NextRound.ValidatorSet == nhd.ValidatorSet
@@ -201,8 +221,10 @@ package tmi
 //@   ensures result != nil ==> msvh(0) == old(msvh(0)) && msvr(0) == old(msvr(0)) && msch(0) == old(msch(0)) && mscr(0) == old(mscr(0))
 //@   modifies msvh(0), msvr(0), msch(0), mscr(0)
 
-// phOK: a proposed header held in the voting view is for the voting height and extends the committing header.
-//@ define phOK(s, ph) = ph.Header.Height == s.Voting.Height && (s.Committing.Height != 0 ==> bytes(ph.Header.PrevBlockHash) == bytes(s.CommittingHeader.Hash))
+// phOK: a proposed header held in the voting view is for the voting height, extends the committing header, and the total
+// power of the validator set it announces for the next height fits in 64 bits (an input assumption: SetAvailablePower adds it up).
+//@ define phOK(s, ph) = ph.Header.Height == s.Voting.Height && (s.Committing.Height != 0 ==> bytes(ph.Header.PrevBlockHash) == bytes(s.CommittingHeader.Hash)) &&
+//@     psum(ph.Header.NextValidatorSet.Validators, allbits(), len(ph.Header.NextValidatorSet.Validators)) <= MAXU64
 // KInv: the kernel state agrees with what is durably recorded.
 //@ define KInv(s) = (s.Committing.Height == 0 ? hmax(0) == 0 : (hmax(0) == s.Committing.Height && hhash(hmax(0)) == bytes(s.CommittingHeader.Hash) && s.Voting.Height == s.Committing.Height + 1)) &&
 //@     s.NextRound.Height == s.Voting.Height && s.NextRound.Round == s.Voting.Round + 1 && s.Voting.Height >= 1 &&
@@ -213,18 +235,40 @@ package tmi
 //@ define KBounds(s) = s.Voting.Height < MAXU64 && s.Voting.Round < MAXU32 - 1 && s.Voting.Version < MAXU32 && s.NextRound.Version < MAXU32 && s.Committing.Version < MAXU32
 //@ define twoThirds(vs, h) = 3 * vs.PrecommitBlockPower[h] > 2 * vs.AvailablePower
 
+// ---- vote state of a view (C01, C05): every stored precommit proof is a verified proof over the view's own validator set ----
+// proofOK: a proof stored under target h of view v is non-nil, every set bit is a candidate key that signed (ProofInv),
+// the candidate keys are the view's validator keys and the signed message is the precommit message for (height, round, h).
+//@ define precommitOK(v, h) = mapvals(v.PrecommitProofs)[h] != nil && base(mapvals(v.PrecommitProofs)[h]) <= top() && ProofInv(mapvals(v.PrecommitProofs)[h]) &&
+//@     pkeys(mapvals(v.PrecommitProofs)[h]) == v.ValidatorSet.PubKeys && pkhash(mapvals(v.PrecommitProofs)[h]) == string(v.ValidatorSet.PubKeyHash) &&
+//@     pmsg(mapvals(v.PrecommitProofs)[h]) == precommitMsg(v.Height, v.Round, h)
+//@ define valsetOK(v) = psum(v.ValidatorSet.Validators, allbits(), len(v.ValidatorSet.Validators)) <= MAXU64 && len(v.ValidatorSet.PubKeys) == len(v.ValidatorSet.Validators) &&
+//@     (forall i int :: {v.ValidatorSet.PubKeys[i]} 0 <= i && i < len(v.ValidatorSet.Validators) ==> v.ValidatorSet.PubKeys[i] == v.ValidatorSet.Validators[i].PubKey)
+//@ define VInv(v) = v.PrecommitProofs != nil && v.VoteSummary.PrecommitBlockPower != nil && valsetOK(v) &&
+//@     v.VoteSummary.AvailablePower == psum(v.ValidatorSet.Validators, allbits(), len(v.ValidatorSet.Validators)) && v.VoteSummary.AvailablePower > 0 &&
+//@     (forall h string :: {rawdom(v.PrecommitProofs)[h]} h in v.PrecommitProofs ==> precommitOK(v, h))
+// SepInv: the voting and next-round views do not share their vote maps (resetting one must not clear the other).
+//@ define SepInv(s) = s.Voting.PrecommitProofs != s.NextRound.PrecommitProofs && s.Voting.PrecommitProofs != s.NextRound.PrevoteProofs &&
+//@     s.Voting.PrevoteProofs != s.NextRound.PrevoteProofs && s.Voting.PrevoteProofs != s.NextRound.PrecommitProofs
+// powerOK: the vote summary's per-target precommit power is the power of the signers recorded in the proofs.
+//@ define powerOK(v) = (forall h string :: {rawdom(v.PrecommitProofs)[h]} h in v.PrecommitProofs ==>
+//@     (h in v.VoteSummary.PrecommitBlockPower) && v.VoteSummary.PrecommitBlockPower[h] == psum(v.ValidatorSet.Validators, pbits(mapvals(v.PrecommitProofs)[h]), len(v.ValidatorSet.Validators))) &&
+//@     (forall h string :: {rawdom(v.VoteSummary.PrecommitBlockPower)[h]} (h in v.VoteSummary.PrecommitBlockPower) ==> (h in v.PrecommitProofs))
+// certOK: view v holds a verified precommit certificate for target h: more than two thirds of the view's total power.
+//@ define certOK(v, h) = (h in v.PrecommitProofs) && precommitOK(v, h) &&
+//@     3 * psum(v.ValidatorSet.Validators, pbits(mapvals(v.PrecommitProofs)[h]), len(v.ValidatorSet.Validators)) > 2 * psum(v.ValidatorSet.Validators, allbits(), len(v.ValidatorSet.Validators))
+
 //@ func Kernel.checkVotingPrecommitViewShift
-//@   property C01 C04 C10
+//@   property C01 C04 C10 C05
 //@   requires KInv(s) && KBounds(s)
 //@   requires k.store != nil && k.hStore != nil
-//@   requires s.Voting.VoteSummary.AvailablePower > 0
+//@   requires VInv(s.Voting) && powerOK(s.Voting) && SepInv(s) && VInv(s.NextRound)
 //@   requires s.GossipViewManager.inGrace != nil
 //@   requires s.StateMachineViewManager.roundEntrance.H == s.Committing.Height ==> !chanclosed(s.StateMachineViewManager.roundEntrance.HeightCommitted)
-//@   requires forall i int :: {addr(s.Voting.ProposedHeaders[i])} 0 <= i && i < len(s.Voting.ProposedHeaders) ==>
-//@       psum(s.Voting.ProposedHeaders[i].Header.NextValidatorSet.Validators, allbits(), len(s.Voting.ProposedHeaders[i].Header.NextValidatorSet.Validators)) <= MAXU64
 //@   ensures commit-needs-two-thirds: s.Committing.Height != old(s.Committing.Height) ==>
 //@       old(s.Voting.VoteSummary.MostVotedPrecommitHash) != "" && old(twoThirds(s.Voting.VoteSummary, s.Voting.VoteSummary.MostVotedPrecommitHash)) &&
 //@       bytes(s.CommittingHeader.Hash) == old(s.Voting.VoteSummary.MostVotedPrecommitHash)
+//@   ensures[C01,C05] commit-holds-certificate: s.Committing.Height != old(s.Committing.Height) ==> certOK(s.Committing, string(s.CommittingHeader.Hash))
+//@   ensures[C01,C05] votes-stay-verified: result == nil && s.Voting.Height == old(s.Voting.Height) ==> VInv(s.Voting)
 //@   ensures commit-is-old-voting: s.Committing.Height != old(s.Committing.Height) ==>
 //@       s.Committing.Height == old(s.Voting.Height) && s.Committing.Round == old(s.Voting.Round) && s.Voting.Height == old(s.Voting.Height) + 1 && s.Voting.Round == 0
 //@   ensures no-commit-position: s.Committing.Height == old(s.Committing.Height) ==> s.Committing.Round == old(s.Committing.Round) &&
@@ -233,3 +277,55 @@ package tmi
 //@   ensures position-recorded: result == nil && (s.Voting.Height != old(s.Voting.Height) || s.Voting.Round != old(s.Voting.Round)) ==>
 //@       msvh(0) == s.Voting.Height && msvr(0) == s.Voting.Round && msch(0) == s.Committing.Height && mscr(0) == s.Committing.Round
 //@   modifies memory except Kernel, hmax(0), hhash(s.Voting.Height), msvh(0), msvr(0), msch(0), mscr(0), chanclosed(s.StateMachineViewManager.roundEntrance.HeightCommitted)
+
+// ---- header replay (C04, C01) ----
+
+//@ iface gcrypto.CommonMessageSignatureProofScheme.New(sch, msg, candidateKeys, pubKeyHash)
+//@   ensures result1 == nil ==> result0 != nil && fresh(ref(result0)) && pmsg(result0) == bytes(msg) && pkeys(result0) == candidateKeys && pkhash(result0) == pubKeyHash &&
+//@       (forall i mathint :: {pbits(result0)[i]} !pbits(result0)[i])
+//@   modifies nothing
+
+//@ iface tmstore.RoundStore.SaveRoundReplayedHeader(st, ctx, h)
+//@   modifies nothing
+//@ iface tmstore.RoundStore.OverwriteRoundPrecommitProofs(st, ctx, height, round, proofs)
+//@   modifies nothing
+//@ iface tmstore.RoundStore.OverwriteRoundPrevoteProofs(st, ctx, height, round, proofs)
+//@   modifies nothing
+
+//@ func mapToSparseSignatureCollection
+//@   property C05 C09
+//@   requires forall h string :: {rawdom(proofs)[h]} h in proofs ==> mapvals(proofs)[h] != nil
+//@   requires forall h1 string, h2 string :: {rawdom(proofs)[h1], rawdom(proofs)[h2]} h1 in proofs && h2 in proofs ==> pkhash(mapvals(proofs)[h1]) == pkhash(mapvals(proofs)[h2])
+//@   modifies nothing
+//@   loop 1 invariant first: !isFirst ==> (exists h0 string :: h0 in proofs && bytes(out.PubKeyHash) == pkhash(mapvals(proofs)[h0]))
+//@   loop 1 invariant fresh-map: out.BlockSignatures != nil && fresh(out.BlockSignatures)
+
+//@ func Kernel.handleReplayedHeader
+//@   property C04 C01 C10 C05
+//@   option nowrap off
+//@   requires KInv(s) && KBounds(s) && SepInv(s) && VInv(s.Voting) && VInv(s.NextRound) && s.Voting.Round < MAXU32 - 2 && s.NextRound.Version < MAXU32 - 1
+//@   requires k.store != nil && k.hStore != nil && k.rStore != nil && k.hashScheme != nil && k.sigScheme != nil && k.cmspScheme != nil
+//@   requires s.GossipViewManager.inGrace != nil
+//@   requires s.StateMachineViewManager.roundEntrance.H == s.Committing.Height ==> !chanclosed(s.StateMachineViewManager.roundEntrance.HeightCommitted)
+//@   requires psum(header.NextValidatorSet.Validators, allbits(), len(header.NextValidatorSet.Validators)) <= MAXU64
+//@   panics_if header.Height == s.Voting.Height && proof.Round < s.Voting.Round
+//@   ensures stale-or-future-height-rejected: header.Height != old(s.Voting.Height) ==> result != nil &&
+//@       s.Voting.Height == old(s.Voting.Height) && s.Voting.Round == old(s.Voting.Round) &&
+//@       s.Committing.Height == old(s.Committing.Height) && s.Committing.Round == old(s.Committing.Round) && s.CommittingHeader == old(s.CommittingHeader)
+//@   ensures commit-is-old-voting-height: s.Committing.Height != old(s.Committing.Height) ==> s.Committing.Height == old(s.Voting.Height) && s.Voting.Height == old(s.Voting.Height) + 1
+//@   ensures[C01,C05] commit-holds-certificate: s.Committing.Height != old(s.Committing.Height) ==> certOK(s.Committing, string(s.CommittingHeader.Hash))
+//@   ensures[C01,C05] votes-stay-verified: result == nil && s.Voting.Height == old(s.Voting.Height) ==> VInv(s.Voting)
+//@   ensures inv-kept: result == nil ==> KInv(s)
+//@   modifies memory except Kernel, hmax(0), hhash(s.Voting.Height), msvh(0), msvr(0), msch(0), mscr(0), chanclosed(s.StateMachineViewManager.roundEntrance.HeightCommitted)
+//@   loop[C01,C05] 1 invariant round-matches: r == s.Voting.Round
+//@   loop 1 invariant temp-proofs-verified: tempProofs != nil && fresh(tempProofs) && (forall x string :: {rawdom(tempProofs)[x]} x in tempProofs ==>
+//@       mapvals(tempProofs)[x] != nil && fresh(ref(mapvals(tempProofs)[x])) && base(mapvals(tempProofs)[x]) <= top() && ProofInv(mapvals(tempProofs)[x]) &&
+//@       pkeys(mapvals(tempProofs)[x]) == valSet.PubKeys && pkhash(mapvals(tempProofs)[x]) == string(valSet.PubKeyHash) &&
+//@       pmsg(mapvals(tempProofs)[x]) == precommitMsg(h, r, x))
+//@   loop 1 invariant voting-kept: VInv(s.Voting) && VInv(s.NextRound) && SepInv(s) && KInv(s) && valSet == s.Voting.ValidatorSet && h == s.Voting.Height
+//@   loop 2 invariant in-range: ok ==> i < MAXINT
+//@   loop 3 invariant voting-proofs-verified: VInv(s.Voting) && VInv(s.NextRound) && SepInv(s) && KInv(s) && valSet == s.Voting.ValidatorSet && h == s.Voting.Height && r == s.Voting.Round
+//@   loop 3 invariant temp-proofs-still-verified: tempProofs != nil && tempProofs != s.Voting.PrecommitProofs && (forall x string :: {rawdom(tempProofs)[x]} x in tempProofs ==>
+//@       mapvals(tempProofs)[x] != nil && base(mapvals(tempProofs)[x]) <= top() && ProofInv(mapvals(tempProofs)[x]) &&
+//@       pkeys(mapvals(tempProofs)[x]) == valSet.PubKeys && pkhash(mapvals(tempProofs)[x]) == string(valSet.PubKeyHash) &&
+//@       pmsg(mapvals(tempProofs)[x]) == precommitMsg(h, r, x))
